@@ -24,6 +24,7 @@ CONSTANTS
   MaxClk,             \* bound on the clock
   OldPopOrder,        \* TRUE: PopContext as it was before the repair (charge the parent copy, then reinstate it)
   OldTimeCharge,      \* TRUE: requireCPU as it was before the repair (the CPU is recorded after the clock is looked at)
+  OldThrInherit,      \* TRUE: PushContext as it was before the repair (the CPU threshold of the parent is kept by the child)
   NCo,                \* number of coroutines (0: none).  Each coroutine has its own Go stack (its own CallContext frames) but
                       \* the context stack belongs to the runtime: it is shared by all threads
   XFlags,     \* extra compliance flags a push may request (subset of {"iosafe","timesafe"})
@@ -100,8 +101,9 @@ ReqM(c, n) ==
        ELSE <<[c EXCEPT !.um = u], FALSE>>
 
 (* PushContext: the new active context computed from the current one (whose elapsed time has just been
-   refreshed when it tracks time).  The CPU threshold for the next look at the clock is NOT reset: it is
-   inherited although the child's CPU counter restarts at 0. *)
+   refreshed when it tracks time).  The CPU threshold for the next look at the clock restarts at 0 with the
+   CPU counter (OldThrInherit: it used to be inherited, so a child was not checked against the clock until it
+   had used as much CPU as its parent had). *)
 Child(p, d, now) ==
   LET hc == MergeR(RemoveR(p.hc, p.uc), d.hc)
       hm == MergeR(RemoveR(p.hm, p.um), d.hm)
@@ -111,7 +113,7 @@ Child(p, d, now) ==
       sms == MergeR(MergeR(hms, p.sms), d.sms)
       tt == hms > 0 \/ sms > 0
   IN [hc |-> hc, hm |-> hm, sc |-> sc, sm |-> sm, uc |-> 0, um |-> 0,
-      hms |-> hms, sms |-> sms, ums |-> 0, start |-> now, tt |-> tt, thr |-> p.thr,
+      hms |-> hms, sms |-> sms, ums |-> 0, start |-> now, tt |-> tt, thr |-> IF OldThrInherit THEN p.thr ELSE 0,
       flags |-> p.flags \cup d.flags \cup (IF d.hc > 0 THEN {"cpusafe"} ELSE {})
                                     \cup (IF d.hm > 0 THEN {"memsafe"} ELSE {})
                                     \cup (IF d.hms > 0 THEN {"timesafe"} ELSE {}),
@@ -314,7 +316,9 @@ RequireCPU(n) ==
          c == stack[Len(stack)]
          st1 == [stack EXCEPT ![Len(stack)] = r[1]]
          looked == c.tc /\ c.tt /\ c.thr <= Add(c.uc, n)
-         tv == IF ~r[2] /\ looked THEN TimeViol(st1, clk, "cpu") ELSE {}
+         tv == (IF ~r[2] /\ looked THEN TimeViol(st1, clk, "cpu") ELSE {})
+               \cup (IF c.tc /\ c.tt /\ ~looked /\ c.status = "live" /\ Add(c.uc, n) >= ThrInc /\ c.thr > Add(c.uc, n) /\ c.thr - ThrInc > c.uc
+                     THEN {[inv |-> "ClockLookedAt", why |-> "no-look-at-the-clock-for-more-than-the-threshold", lvl |-> Len(stack)]} ELSE {})
      IN Step([op |-> "cpu", n |-> n], st1, frames,
              PanAfter(k, frames), [r |-> r[3], n |-> n], LastPan("cpu", k), tv)
 
